@@ -19,7 +19,16 @@ pub fn gen_world(seed: u64, idx: u64, s: &dyn SuiteOps) -> World {
     let mut b = WB::new(s, seed, idx, "c16 export key history");
     let fam = s.ksf_family();
     let setup = b.setup(false);
-    let setup2 = b.setup(false);
+    // "another server": an unrelated one, or (every other world) one that holds the SAME static
+    // key behind its own freshly drawn OPRF seed
+    let setup2 = if idx % 2 == 0 {
+        b.setup(false)
+    } else {
+        let out = b.id();
+        let t = b.tape("setup-with-key");
+        b.push(Op::NewSetupWithKey { out, tape: t, sk_from: setup });
+        out
+    };
     // high-entropy passwords >= 16 bytes so that the substring monitor is meaningful
     let pwlen = 16 + g.below(24);
     let pw_a = g.bytes(pwlen);
